@@ -60,7 +60,8 @@ func (f *Select) Call(s *slip.Scope, args slip.List, depth int) (result slip.Obj
 		ci      int
 	)
 	d2 := depth + 1
-	if f.prepClauses(s, args, d2) {
+	args, refl := f.prepClauses(s, args, d2)
+	if refl {
 		return f.reflectClauses(s, args, d2)
 	}
 	for _, a := range args {
@@ -108,18 +109,24 @@ func (f *Select) Call(s *slip.Scope, args slip.List, depth int) (result slip.Obj
 	return
 }
 
-func (f *Select) prepClauses(s *slip.Scope, args slip.List, depth int) bool {
+// prepClauses evaluates the channel form of every clause. The clauses with
+// their channels are copies: the form being evaluated keeps its channel
+// forms, they are evaluated again when the select form is.
+func (f *Select) prepClauses(s *slip.Scope, args slip.List, depth int) (slip.List, bool) {
 	var (
 		ccnt int
 		tcnt int
 		refl bool
 	)
-	for _, a := range args {
+	prepared := make(slip.List, len(args))
+	for i, a := range args {
 		clause, ok := a.(slip.List)
 		if !ok || len(clause) == 0 {
 			slip.TypePanic(s, depth, "clause", a, "list")
 		}
-		clause[0] = slip.EvalArg(s, clause, 0, depth)
+		channel := slip.EvalArg(s, clause, 0, depth)
+		clause = append(slip.List{channel}, clause[1:]...)
+		prepared[i] = clause
 		switch clause[0].(type) {
 		case Channel:
 			ccnt++
@@ -129,7 +136,7 @@ func (f *Select) prepClauses(s *slip.Scope, args slip.List, depth int) bool {
 			refl = true
 		}
 	}
-	return refl || maxTimeChan < tcnt || maxSlipChan < ccnt
+	return prepared, refl || maxTimeChan < tcnt || maxSlipChan < ccnt
 }
 
 func (f *Select) reflectClauses(s *slip.Scope, clauses slip.List, depth int) (result slip.Object) {
